@@ -1,6 +1,6 @@
 from dataclasses import dataclass
 from decimal import Decimal
-from typing import Any, Callable, Dict, Optional, Type, Union
+from typing import Any, Callable, Dict, List, Optional, Type, Union
 
 from koda_validate import NotBlank
 from koda_validate.base import Predicate, PredicateAsync
@@ -57,13 +57,21 @@ class SerializableErr(ValidationErrBase):
     """
 
 
+def _sorted_choices(choices: Any) -> List[Any]:
+    try:
+        return sorted(choices)
+    except Exception:
+        # members that cannot be ordered against each other, e.g. 1 and "a"
+        return sorted(choices, key=repr)
+
+
 def pred_to_err_message(pred: Union[Predicate[Any], PredicateAsync[Any]]) -> str:
     if isinstance(pred, MinKeys):
         return f"minimum allowed properties is {pred.size}"
     elif isinstance(pred, MaxKeys):
         return f"maximum allowed properties is {pred.size}"
     elif isinstance(pred, Choices):
-        return f"expected one of {sorted(pred.choices)}"
+        return f"expected one of {_sorted_choices(pred.choices)}"
     elif isinstance(pred, Min):
         exclusive = " (exclusive)" if pred.exclusive_minimum else ""
         return f"minimum allowed value{exclusive} is {pred.minimum}"
